@@ -107,6 +107,30 @@ def linearity(run, rng, sa, sb):
     return ok
 
 
+def inplace_rescale_case(run, rng, l):
+    """scaling a column in place in the coefficient array the shell holds and renormalising gives the same function up to the sign"""
+    from gbasis.evals.eval import evaluate_basis
+    from gbasis.integrals.overlap import overlap_integral
+    s = rand_shell(rng, l, [], nprim=3, nseg=2, exp_lo=0.2, exp_hi=10.0)
+    sh = s.make()
+    pts = np.array([[0.3, -0.2, 0.5], [1.0, 1.0, -1.0], list(s.center)])
+    v0 = evaluate_basis([sh], pts)
+    f = core.snap(rng.choice([-1, 1]) * 10.0 ** rng.uniform(-3, 3), 6)
+    sh.coeffs[:, 1] *= f
+    sh.assign_norm_cont()
+    v1 = evaluate_basis([sh], pts)
+    n = s.nfun
+    exp = v0.copy()
+    exp[n:2 * n] *= np.sign(f)
+    run.case(("inplace-rescale", l, f))
+    run.count("rewrite scale-column in place + assign_norm_cont")
+    if np.abs(v1 - exp).max() > 1e-9 * float(np.abs(exp).max()) or np.abs(np.diag(overlap_integral([sh])) - 1).max() > 1e-8:
+        run.violation(f"after scaling a coefficient column in place by {f} and calling assign_norm_cont the shell is not renormalised",
+                      {"case": "inplace-rescale", "l": l, "basis": [s.describe()], "signature": {"kind": "contraction-inplace"}})
+        return False
+    return True
+
+
 def check(run):
     rng = run.rng
     quick = run.tier == "quick"
@@ -143,6 +167,8 @@ def check(run):
         specs = [rand_shell(rng, 0, cs, nprim=rng.randint(2, 3), nseg=2 + (i + it) % 2, exp_lo=0.1, exp_hi=10.0) for i in range(2)]
         rewrites(run, rng, specs, it % 2, None, ["eri_chemist", "eri_physicist"])
         run.count("all-s generalized ERI")
+    for l in range(3 if quick else 5):
+        inplace_rescale_case(run, rng, l)
     for it in range(4 if quick else 25):
         sa, sb = pair_specs(rng, rng.randint(0, 4), rng.randint(0, 3))
         linearity(run, rng, sa.copy(sph=False), sb.copy(sph=False))
@@ -151,7 +177,9 @@ def check(run):
 def replay(run, rep):
     n0 = len(run.violations)
     specs = specs_from(rep)
-    if rep["case"] == "linear":
+    if rep["case"] == "inplace-rescale":
+        inplace_rescale_case(run, run.rng, rep["l"])
+    elif rep["case"] == "linear":
         linearity(run, run.rng, specs[0], specs[1])
     else:
         env = pf.default_env(run.rng, specs)
